@@ -6,7 +6,7 @@ from ..env import np, puan, pnd
 from .. import mspace
 
 ID = "C20"
-RULE = ("Mode M: EVERY duplicate-free ordered variable list of length 1..3 over ids {'a','b','ue'(unicode),7,0} x every bounds choice from "
+RULE = ("Mode M: EVERY duplicate-free ordered variable list of length 1..3 over ids {'a','b','ue'(unicode),7,0,'7'} x every bounds choice from "
         "{(0,1),(-2,3),(-2,5),(1,1),(3,3),(-1,3)} (equal hash sums included; length 3: the first four, length 4: the first two) x every dictionary over a subset of the ids with/without an "
         "unknown id x default_value in {None, callable} x dtype in {int64,int32,float64} for construct(); every sub-list (ordered, and nested "
         "lists of lists) of every context for boolean/integer from_list; every 0/1 mask for to_list (1-D and 2-D); boolean/integer variable "
@@ -14,11 +14,11 @@ RULE = ("Mode M: EVERY duplicate-free ordered variable list of length 1..3 over 
         "non-trivial = distinct case with at least one given and one defaulted position")
 ASSUMPTIONS = ["ids are duplicate-free (stated); dictionary values are distinct small integers (one of them 0) so that permutations and falsy values are visible"]
 BOUNDS = {"quick": "as in rule", "thorough": "as quick + length 4 with all four bounds, contexts of length 5"}
-IDS = ["a", "b", "ü", 7, 0]
+IDS = ["a", "b", "ü", 7, 0, "7"]      # the int 7 next to the str "7": ids that coincide after a str() coercion
 # (0,1), (-2,3) and (-1,3) have equal hash(lower)+hash(upper) (hash(-1) == -2): anything keyed by the hash of a variable confuses them
 BMENU = [(0, 1), (-2, 3), (-2, 5), (1, 1), (3, 3), (-1, 3)]
 # distinct values so that permutations are visible; one of them is 0 (a given 0 is a value, not "missing")
-VAL = {"a": 11, "b": 0, "ü": 13, 7: -14, 0: -15, "zz": 99}
+VAL = {"a": 11, "b": 0, "ü": 13, 7: -14, 0: -15, "7": 17, "zz": 99}
 
 
 def var_lists(tier):
